@@ -75,6 +75,11 @@ def cases(tier, seed):
     for pair in itertools.permutations(TWINS, 2):
         for mode in ('seq', 'resumed', 'j2'):
             yield ['twins', list(pair), mode]
+    # the header sequence must not depend on which child finishes first: real
+    # processes, completion orders forced with barrier files (shared with C06)
+    for perm in (['C', 'B', 'A'], ['B', 'C', 'A'], ['C', 'A', 'B']):
+        for v in (0, 2):
+            yield ['realorder', perm, v]
     yield ['hashseeds', 3 if tier == 'quick' else 4, seeds]
 
 
@@ -373,6 +378,11 @@ def run_case(case):
         evals, nt, vs = run_e2e(case[1], case[2])
     elif kind == 'twins':
         evals, nt, vs = run_twins(case[1], case[2])
+    elif kind == 'realorder':
+        from vt.props import c06
+        ev, vv = c06.run_realorder(case[1], 3, case[2])
+        evals, nt = ev, ev
+        vs = [(c, (case[1], case[2]), d) for c, sg, d in vv if c in ('layer_blocks_out_of_order', 'parent_hangs', 'harness_order_not_forced')]
     else:
         nmax, seeds = case[1], case[2]
         digs = {}
@@ -397,4 +407,4 @@ def run_case(case):
                      'detail': 'where=%s info=%s' % (json.dumps(where, default=repr), info),
                      'case': case})
     return {'evals': evals, 'nontrivial': nt, 'violations': viol,
-            'outcome': kind}
+            'outcome': kind, 'nogate': kind in ('realorder', 'hashseeds')}
